@@ -49,6 +49,7 @@ type NodeMachine struct {
 	BlockTxs map[int][]*pb.Transaction // pristine transactions per model block
 	States   map[int]*MState           // state after each (state-valid) block
 	Valid    map[int]bool              // block is state-valid (replays on its parent's state)
+	WhyNot   map[int]string            // why the model considers a stored block invalid
 	Ptr      int                       // model's state pointer (block index)
 	Pool     []*pb.Transaction         // admitted, in admission order
 	Seq      int
@@ -71,7 +72,7 @@ func NewNodeMachine(opts NodeOpts, fs *FindingSet) (*NodeMachine, error) {
 	if err != nil {
 		return nil, err
 	}
-	nm := &NodeMachine{N: n, FS: fs, BlockTxs: map[int][]*pb.Transaction{}, States: map[int]*MState{}, Valid: map[int]bool{},
+	nm := &NodeMachine{N: n, FS: fs, BlockTxs: map[int][]*pb.Transaction{}, States: map[int]*MState{}, Valid: map[int]bool{}, WhyNot: map[int]string{},
 		Seq: 100, IrrevBlk: -1, Window: opts.Window, KeyUniv: map[string]bool{}, Stat: map[string]int{}, Specs: map[string]TxSpec{}}
 	nm.LM = NewLedgerMachineOn(func() *ledgerpkg.Ledger { return nm.N.Ledger }, n.Root, fs)
 	s := NewMState()
@@ -432,6 +433,7 @@ func (nm *NodeMachine) Apply(op NOp) error {
 		height := int64(7)
 		var s *MState
 		valid := true
+		whyNot := "parent is not a valid stored block"
 		if parent >= 0 && parent < len(m.Blocks) {
 			preHash, height = m.Blocks[parent].ID, m.Blocks[parent].Height+1
 			if nm.States[parent] != nil {
@@ -468,6 +470,7 @@ func (nm *NodeMachine) Apply(op NOp) error {
 			}
 			if err := s.Check(tx, height); err != nil {
 				valid = false
+				whyNot = fmt.Sprintf("generated transaction %s: %v", Hex8(tx.Txid), err)
 			}
 			s.Apply(tx, prop.Address)
 			txs = append(txs, tx)
@@ -484,8 +487,11 @@ func (nm *NodeMachine) Apply(op NOp) error {
 			for _, btxs := range nm.blockTxsSorted() {
 				for _, otx := range btxs {
 					if hex.EncodeToString(otx.Txid) == idHex && !otx.Coinbase {
-						if s.Check(otx, height) != nil {
+						if cerr := s.Check(otx, height); cerr != nil {
 							valid = false
+							whyNot = fmt.Sprintf("re-included transaction %s: %v", Hex8(otx.Txid), cerr)
+						} else {
+							nm.Stat["peer-shares-tx-with-other-branch"]++
 						}
 						s.Apply(otx, prop.Address)
 						txs = append(txs, CloneTx(otx))
@@ -526,6 +532,8 @@ func (nm *NodeMachine) Apply(op NOp) error {
 			if valid && parent >= 0 && nm.Valid[parent] {
 				nm.States[idx] = s
 				nm.Valid[idx] = true
+			} else {
+				nm.WhyNot[idx] = whyNot
 			}
 			nm.Stat["peer-stored"]++
 		}
@@ -929,7 +937,7 @@ func (nm *NodeMachine) walk(target int, prune bool) error {
 		for i := len(todo) - 1; i >= 0; i-- {
 			b := todo[i]
 			if !nm.Valid[b] {
-				expectOK, why = false, fmt.Sprintf("block %s is not valid on its parent's state", m.Blocks[b].Label)
+				expectOK, why = false, fmt.Sprintf("block %s is not valid on its parent's state: %s", m.Blocks[b].Label, nm.WhyNot[b])
 				break
 			}
 			ptr = b
